@@ -1544,6 +1544,116 @@ def rule_transpose_axes(ctx):
     return r
 
 
+def rule_const_all_coeffs(ctx):
+    r = RuleResult('C02.const-all', 'no method of UTPM assigns or adds a value that is not coefficient data to the *whole* coefficient array of a Taylor polynomial '
+                                    '(`X.data[...] = c`, `+=`, `-=`): a constant belongs to coefficient 0 only (`X[...] = c`, `X.data[0] = c`); scaling all '
+                                    'coefficients (`*=`, `/=`) and clearing with 0 are the exceptions')
+    m = ctx.model
+    cu = m.cls('UTPM')
+    if cu is None:
+        raise AnalysisError('C02.const-all', UTPM_MOD, 'class UTPM vanished')
+
+    def full(sl):
+        f = sl.elts[0] if isinstance(sl, ast.Tuple) and sl.elts else sl
+        return (isinstance(f, ast.Constant) and f.value is Ellipsis) or (isinstance(f, ast.Slice) and f.lower is None and f.upper is None and f.step is None)
+
+    n = 0
+    for name, fi in sorted(cu.methods.items()):
+        def carries_data(v, names):
+            """the expression contains coefficient data (not merely the shape / dtype of some)"""
+            skip = set()
+            for x in ast.walk(v):
+                if isinstance(x, ast.Attribute) and x.attr in ('shape', 'dtype', 'ndim', 'size'):
+                    skip |= {id(y) for y in ast.walk(x.value)}
+                if isinstance(x, ast.Call) and (dotted_name(x.func) or '').split('.')[-1] in ('shape', 'ndim', 'len', 'zeros', 'empty', 'zeros_like', 'empty_like', 'promote_types'):
+                    for a_ in list(x.args) + [k.value for k in x.keywords]:
+                        skip |= {id(y) for y in ast.walk(a_)}
+            return any(id(x) not in skip and ((isinstance(x, ast.Attribute) and x.attr == 'data') or (isinstance(x, ast.Name) and x.id in names)) for x in ast.walk(v))
+
+        def data_names_before(line):
+            names = {p_ for p_ in fi.params if p_.endswith('_data')}
+            for _ in range(3):
+                for st_ in walk_no_nested(fi.node):
+                    if isinstance(st_, ast.Assign) and st_.lineno < line and carries_data(st_.value, names):
+                        for t_ in st_.targets:
+                            for e in (t_.elts if isinstance(t_, (ast.Tuple, ast.List)) else [t_]):
+                                if isinstance(e, ast.Name):
+                                    names.add(e.id)
+            return names
+
+        for st in walk_no_nested(fi.node):
+            if isinstance(st, ast.Expr) and isinstance(st.value, ast.Call) and (dotted_name(st.value.func) or '') == 'numpy.copyto' and len(st.value.args) >= 2:
+                dst, v = st.value.args[0], st.value.args[1]
+                whole = (isinstance(dst, ast.Attribute) and dst.attr == 'data') or \
+                    (isinstance(dst, ast.Subscript) and isinstance(dst.value, ast.Attribute) and dst.value.attr == 'data' and full(dst.slice))
+                if whole:
+                    n += 1
+                    if (isinstance(v, ast.Constant) and v.value == 0) or carries_data(v, data_names_before(st.lineno)):
+                        r.ok(construct='%s:%s' % (fi.qualname, norm(st)[:50]), sample='%s: `%s`' % (fi.qualname, norm(st)[:70]))
+                    else:
+                        r.bad(Finding('C02.const-all', _f(fi), norm(st)[:80], '%s: `%s` copies a value that is not coefficient data into every Taylor coefficient'
+                                      % (fi.qualname, norm(st)[:70]), fi.file, st.lineno))
+                continue
+            if not isinstance(st, (ast.Assign, ast.AugAssign)):
+                continue
+            if isinstance(st, ast.AugAssign) and not isinstance(st.op, (ast.Add, ast.Sub)):
+                continue
+            for t in (st.targets if isinstance(st, ast.Assign) else [st.target]):
+                if not (isinstance(t, ast.Subscript) and isinstance(t.value, ast.Attribute) and t.value.attr == 'data' and full(t.slice)):
+                    continue
+                n += 1
+                v = st.value
+                is_zero = isinstance(v, ast.Constant) and v.value == 0 and v.value is not False
+                has_data = carries_data(v, data_names_before(st.lineno))
+                if is_zero or has_data:
+                    r.ok(construct='%s:%s' % (fi.qualname, norm(st)[:50]), sample='%s: `%s`' % (fi.qualname, norm(st)[:70]))
+                else:
+                    r.bad(Finding('C02.const-all', _f(fi), norm(st)[:80], '%s: `%s` writes a value that is not coefficient data into every Taylor coefficient of `%s` '
+                                                                          '(a constant belongs to coefficient 0 only)' % (fi.qualname, norm(st)[:70], norm(t.value.value)),
+                                  fi.file, st.lineno))
+    r.floor = 3
+    r.stats = {'whole_array_stores': n}
+    return r
+
+
+def rule_cast_guard(ctx):
+    r = RuleResult('C08.cast-guard', 'a lossy conversion of a whole coefficient array (`.real`, `.astype(float)` of `X.data`) is guarded by a test over the whole '
+                                     'array: deciding from the zeroth coefficient only drops the imaginary parts of the higher-order coefficients')
+    m = ctx.model
+    cu = m.cls('UTPM')
+    n = 0
+    for name, fi in sorted(cu.methods.items()):
+        for iff in walk_no_nested(fi.node):
+            if not isinstance(iff, ast.If):
+                continue
+            casts = []
+            for st in iff.body:
+                for x in ast.walk(st):
+                    # X.data.real  /  X.data.astype(<real dtype>)
+                    if isinstance(x, ast.Attribute) and x.attr == 'real' and isinstance(x.value, ast.Attribute) and x.value.attr == 'data' \
+                            and isinstance(x.value.value, ast.Name):
+                        casts.append((x.value.value.id, x))
+            if not casts:
+                continue
+            for obj, x in casts:
+                n += 1
+                tested = [s_ for s_ in ast.walk(iff.test) if isinstance(s_, ast.Attribute) and s_.attr == 'data' and isinstance(s_.value, ast.Name) and s_.value.id == obj]
+                if not tested:
+                    r.unknown(fi.site(iff), 'conversion of %s.data not guarded by a test of %s.data' % (obj, obj))
+                    continue
+                partial = [s_ for s_ in ast.walk(iff.test) if isinstance(s_, ast.Subscript) and isinstance(s_.value, ast.Attribute) and s_.value.attr == 'data'
+                           and isinstance(s_.value.value, ast.Name) and s_.value.value.id == obj]
+                whole = len(tested) > len(partial)
+                if partial and not whole:
+                    r.bad(Finding('C08.cast-guard', _f(fi), '%s:%s' % (obj, norm(iff.test)[:60]),
+                                  'UTPM.%s drops the imaginary part of every coefficient of `%s` (`%s`) after testing only `%s`'
+                                  % (name, obj, norm(x)[:40], norm(partial[0])), fi.file, iff.lineno))
+                else:
+                    r.ok(construct='%s:%s' % (name, obj), sample='UTPM.%s: `%s` only after `%s` over the whole array' % (name, norm(x)[:40], norm(iff.test)[:60]))
+    r.floor = 2
+    return r
+
+
 def rule_operand_order(ctx):
     r = RuleResult('C02.operand-order', 'in the non-commutative operators (-, /, //, -=, /=) the left operand of every subtraction/division and the first '
                                         'argument of the division kernels derives from `self`, the right one from the other operand - followed '
